@@ -73,6 +73,9 @@ void harness(void)
   LOAD(in_dofilter); LOADA(in_filter, 2); LOAD(in_nfilter);
   for (r = 0; r < CF_R; r++)
   {
+#ifdef RKINDS
+    in_rkind[r] = (RKINDS >> (4 * r)) & 15;          /* record kinds fixed per obligation: the file layout up to the payload lengths is concrete */
+#endif
     ASSUME(in_rkind[r] <= 4);
     ASSUME(in_rcpu[r] != 0 && (in_rkind[r] != 1 || in_rcpu[r] < 0x80));   /* no CPU family has id 0 */
     ASSUME(in_rseg[r] < SegCount);
@@ -102,7 +105,9 @@ void harness(void)
     {
       CHECK(rd() == 0x80, "entry record conserved (type)");
       CHECK(rd32() == in_rstart[r], "entry record conserved (address)");
+#ifndef RKINDS
       WITNESS("entry record");
+#endif
     }
     else if ((kind == 0 || kind == 1) && filter_ok(r))
     {
